@@ -66,8 +66,10 @@ type jcase struct {
 	Max  uint64 `json:"max_size"`
 	Ops  []jop  `json:"ops"`
 	// concurrent histories only (information; a replay re-executes Ops sequentially)
-	Intervals []jinterval `json:"concurrent_intervals,omitempty"`
-	Note      string      `json:"note,omitempty"`
+	Intervals   []jinterval `json:"concurrent_intervals,omitempty"`
+	Note        string      `json:"note,omitempty"`
+	ConcPrefix  []jop       `json:"concurrent_program_prefix,omitempty"`  // a replay re-executes this program
+	ConcThreads [][]jop     `json:"concurrent_program_threads,omitempty"` // (12 schedules) instead of Ops
 }
 
 func toValue(p jpoint) tsm1.Value {
@@ -826,7 +828,7 @@ func doConc(w *vh.W, max uint64, prefix []jop, threads [][]jop, barrier bool) {
 	if failed {
 		e = bad
 	}
-	c := &jcase{Mode: "conc", Max: max}
+	c := &jcase{Mode: "conc", Max: max, ConcPrefix: prefix, ConcThreads: threads}
 	for _, o := range e.ops {
 		c.Intervals = append(c.Intervals, jinterval{o.g, o.inv, o.ret, opSummary(&o.op)})
 	}
@@ -1052,7 +1054,7 @@ func (g *gen) concCase() (uint64, []jop, [][]jop) {
 // ---------- hand-picked regression histories ----------
 
 func P(ts int64, t string, v string) jpoint { return jpoint{ts, t, v} }
-func W(kvs ...jkv) jop                     { return jop{Op: "write", Batch: kvs} }
+func W(kvs ...jkv) jop                      { return jop{Op: "write", Batch: kvs} }
 func KV(k string, ps ...jpoint) jkv {
 	if ps == nil {
 		ps = []jpoint{}
@@ -1219,7 +1221,11 @@ func main() {
 			w.Finish()
 			return
 		}
-		runSeq(w, &rc)
+		if rc.Mode == "conc" && len(rc.ConcThreads) > 0 {
+			doConc(w, rc.Max, rc.ConcPrefix, rc.ConcThreads, true)
+		} else {
+			runSeq(w, &rc)
+		}
 		w.Finish()
 		return
 	}
